@@ -508,7 +508,8 @@ fn dialect_case(id: u64, x: &X, which: usize) {
         let m = shrink(x, &bad);
         let ch = children(&m);
         let big: Vec<String> = ch.iter().filter(|(_, c)| kind(c) != "atom").map(|(_, c)| kind(c)).collect();
-        key = format!("dialect:{}:unparseable:{}({})", names[which], kind(&m), big.join(","));
+        key = if kind(&m) == "Negative" && big.len() == 1 && (big[0] == "Negative" || big[0] == "NegativeLiteral") { format!("unparenthesised:{}", big[0]) }
+              else { format!("dialect:{}:unparseable:{}({})", names[which], kind(&m), big.join(",")) };
         min_sql = x_sql(&m);
         min_text = run(&to_expr(&m)).0.unwrap_or_default();
     }
@@ -586,15 +587,18 @@ fn root_sort_keys(q: &rg::Q) -> Option<Vec<usize>> {
 }
 fn rows_json(rows: &[Vec<String>]) -> String { format!("[{}]", rows.iter().take(60).map(|r| format!("[{}]", r.join(","))).collect::<Vec<_>>().join(",")) }
 
+/// what the comparison needs to know about a query
+struct QInfo { keys: Option<Vec<usize>>, is_limit: bool, inner_limit: bool, setop: bool, bare: bool }
 fn plan_case(id: u64, stream: &str, tabs: &[rg::Tab], q: &rg::Q, optimized: bool) {
     let widths: Vec<usize> = tabs.iter().map(|t| t.types.len()).collect();
     let sql0 = rg::to_sql(q, &widths);
+    let info = QInfo { keys: root_sort_keys(q), is_limit: matches!(q, rg::Q::Limit(..)), inner_limit: has_inner_limit(q, true), setop: q_has_setop(q), bare: q_has_bare_operand(q) };
+    plan_case_sql(id, stream, tabs, sql0, info, optimized)
+}
+fn plan_case_sql(id: u64, stream: &str, tabs: &[rg::Tab], sql0: String, info: QInfo, optimized: bool) {
     let rt = tokio::runtime::Builder::new_multi_thread().worker_threads(2).enable_all().build().unwrap();
     let (tabs2, sql02) = (tabs.to_vec(), sql0.clone());
-    let keys = root_sort_keys(q);
-    let is_limit = matches!(q, rg::Q::Limit(..));
-    let inner_limit = has_inner_limit(q, true);
-    let (setop, bare) = (q_has_setop(q), q_has_bare_operand(q));
+    let QInfo { keys, is_limit, inner_limit, setop, bare } = info;
     let pfx = if optimized { "plan-optimized" } else { "plan" };
     // class key of a failing plan: the known expression-level defect inside a plan; the set-operation defects; optimized plans coarsely; else stage + message
     let key_of = move |stage: &str, msg: &str, why: &str| -> String {
@@ -711,6 +715,28 @@ fn main() {
     if want("witness") {
         for (k, (name, mode, x)) in expr_witnesses().into_iter().enumerate() {
             expr_case(&env, 1_000_000 + k as u64, &format!("witness:{name}"), &x, mode, true);
+        }
+    }
+    // ---- fixed plan witnesses (t0: c0 BIGINT, c1 BIGINT, c2 BOOLEAN)
+    let wt = vec![rg::Tab { types: vec![rg::Ty::Int, rg::Ty::Int, rg::Ty::Bool], parts: 1, rows: vec![
+        vec![rg::V::I(1), rg::V::I(2), rg::V::B(true)], vec![rg::V::Null, rg::V::I(1), rg::V::B(false)], vec![rg::V::I(2), rg::V::Null, rg::V::Null],
+        vec![rg::V::Null, rg::V::Null, rg::V::B(true)], vec![rg::V::I(1), rg::V::I(1), rg::V::B(false)]] }];
+    let plan_w: Vec<(&str, &str, bool, bool, bool)> = vec![
+        // (name, sql, optimized, has INTERSECT/EXCEPT, has an unparenthesised operand)
+        ("plan:expression", "SELECT a1.c0 AS r0 FROM t0 AS a1 WHERE (a1.c2 = (a1.c2 IS NULL))", false, false, true),
+        ("plan:intersect-null", "(SELECT a1.c0 AS r0 FROM t0 AS a1) INTERSECT (SELECT a2.c0 AS r0 FROM t0 AS a2)", false, true, false),
+        ("plan:except-under-alias", "SELECT a1.x AS r0 FROM ((SELECT a2.c0 AS x FROM t0 AS a2) EXCEPT (SELECT a3.c1 AS x FROM t0 AS a3)) AS a1", false, true, false),
+        ("plan-optimized:replan", "SELECT a1.c0 AS r0 FROM t0 AS a1 WHERE (a1.c1 >= a1.c0)", true, false, false),
+        ("plan-optimized:result", "(SELECT a1.c0 AS r0 FROM t0 AS a1) EXCEPT ALL (SELECT a2.c1 AS r0 FROM t0 AS a2)", true, true, false),
+    ];
+    let psql = arg(&args, "--plan-probe", "");
+    if !psql.is_empty() {
+        for opt in [false, true] { plan_case_sql(0, "probe", &wt, psql.clone(), QInfo { keys: None, is_limit: false, inner_limit: false, setop: psql.contains("INTERSECT") || psql.contains("EXCEPT"), bare: false }, opt); }
+        return;
+    }
+    if want("witness") {
+        for (k, (name, sql, opt, setop, bare)) in plan_w.into_iter().enumerate() {
+            plan_case_sql(1_000_100 + k as u64, &format!("witness:{name}"), &wt, sql.to_string(), QInfo { keys: None, is_limit: false, inner_limit: false, setop, bare }, opt);
         }
     }
     let mut rng = Rng::new(seed);
